@@ -217,7 +217,7 @@ class Controller(object):
 
 def run_schedule(app, calls, schedule, observe=None):
     """Run `calls` under `schedule` (a list of request names; names of finished
-    requests are skipped; when the list is exhausted the request scheduled
+    requests are skipped; 'X*' lets request X run to completion at that point; when the list is exhausted the request scheduled
     last runs to completion, then the remaining ones in name order, so that a
     prefix adds exactly one preemption).  observe(name, txno, kind) is called by
     the controller thread after every transaction (no transaction is open).
@@ -228,6 +228,16 @@ def run_schedule(app, calls, schedule, observe=None):
     executed = []
     try:
         for name in schedule:
+            if name.endswith('*'):
+                # this request runs to completion here
+                name = name[:-1]
+                while not c.reqs[name].done:
+                    e = c.step(name)
+                    if e:
+                        executed.append((name,) + e)
+                        if observe:
+                            observe(name, e[0], e[1])
+                continue
             if c.reqs[name].done:
                 continue
             e = c.step(name)
@@ -238,7 +248,9 @@ def run_schedule(app, calls, schedule, observe=None):
         # continuation without further preemption: the request scheduled last
         # runs to completion first, then the others in name order
         order = list(calls)
-        if schedule and schedule[-1] in order:
+        if schedule and schedule[-1].rstrip('*') in order and schedule[-1].endswith('*'):
+            pass
+        elif schedule and schedule[-1] in order:
             order.remove(schedule[-1])
             order.insert(0, schedule[-1])
         for name in order:
